@@ -382,6 +382,33 @@ impl StorageEngine {
         }
     }
     
+    /// Value and remaining time to live of a key, read under ONE acquisition of the shard lock
+    /// (for RDB snapshots: the pair is the key's state at a single instant). A sorted set is
+    /// copied, because its skip list is shared by `Arc` and changed in place by ZADD/ZREM.
+    pub fn get_with_ttl(&self, db: DatabaseIndex, key: &[u8]) -> Result<Option<(Value, Option<Duration>)>> {
+        let shard = self.get_shard(db, key)?;
+        let shard_guard = shard.read().unwrap();
+
+        match shard_guard.data.get(key) {
+            Some(stored_value) if !stored_value.is_expired() => {
+                let ttl = stored_value.metadata.expires_at
+                    .map(|expires_at| expires_at.saturating_duration_since(Instant::now()));
+                let value = match &stored_value.value {
+                    Value::SortedSet(skiplist) => {
+                        let copy = SkipList::new();
+                        for (member, score) in skiplist.range_by_rank(0, usize::MAX).items {
+                            copy.insert(member, score);
+                        }
+                        Value::SortedSet(Arc::new(copy))
+                    }
+                    other => other.clone(),
+                };
+                Ok(Some((value, ttl)))
+            }
+            _ => Ok(None),
+        }
+    }
+
     /// Increment integer value
     pub fn incr(&self, db: DatabaseIndex, key: Key) -> Result<i64> {
         self.incr_by(db, key, 1)
